@@ -3,6 +3,7 @@
 package newrelic
 
 import (
+	"errors"
 	"encoding/hex"
 	"fmt"
 	"io"
@@ -78,6 +79,10 @@ type vFrameHandler struct {
 func (h *vFrameHandler) HandleMessage(m RawMessage) ([]byte, error) {
 	h.msgs = append(h.msgs, fmt.Sprintf("%d:%s", uint32(m.Type), vHex(m.Bytes)))
 	h.kept = append(h.kept, m)
+	if len(m.Bytes) > 0 && m.Bytes[0]%2 == 1 && m.Bytes[0]%7 == 3 {
+		// a message the handler rejects (a protocol error: the connection stays open, nothing is written back)
+		return nil, errors.New("verif: rejected message")
+	}
 	if len(m.Bytes) > 0 && m.Bytes[0]%2 == 0 {
 		r := make([]byte, len(m.Bytes))
 		for i, b := range m.Bytes {
